@@ -345,8 +345,9 @@ def part_b_case(ctx, i, rng):
     open(os.path.join(elsewhere, "data", "target.txt"), "w").write("decoy in the process cwd")
     # parsers: level k has a path option, a list of paths, a dataclass sub-file and (if not last) an inner parser for level k+1
     parsers = []
+    exiting = rng.random() < 0.35  # failures are reported by usage + exit status 2 (SystemExit) instead of ArgumentError
     for k in reversed(range(depth)):
-        q = ArgumentParser(exit_on_error=False)
+        q = ArgumentParser(exit_on_error=not exiting)
         if k == 0:
             q.add_argument("--cfg", action=ActionConfigFile)
         q.add_argument(f"--f{k}", type=Path_fr)
@@ -424,15 +425,27 @@ def part_b_case(ctx, i, rng):
             p.default_config_files = [entry]
             o = call(p.parse_args, [])
         after = os.getcwd()
+        follow = None
+        if not o.accepted and after == before:
+            # after a failed parse the process is where it was *and* a relative path given next is resolved from there
+            q = ArgumentParser(exit_on_error=False)
+            q.add_argument("--f", type=Path_fr)
+            follow = call(q.parse_args, ["--f=data/target.txt"])
+            ctx.count("mon.relative_path_after_failed_parse")
     finally:
         os.chdir(old)
+    if exiting:
+        ctx.count("st.nested.exit_on_error" + (".failing" if not o.accepted else ""))
+    if follow is not None and not (follow.accepted and os.path.realpath(follow.value.f.absolute) == os.path.realpath(os.path.join(elsewhere, "data", "target.txt"))):
+        ctx.violation("relative", f"relative-path-after-failed-parse-not-resolved-against-cwd/{how.split()[0]}", dict(depth=depth, how=how, fail_at=fail_at, exiting=exiting, outcome=o.brief(), follow=follow.brief()))
+        return
     ctx.evaluation(("B", depth, how, fail_at, fail_kind if fail_at is not None else None, tuple(sorted(expected))))
     ctx.count("mon.nested_config_parses")
     ctx.count(f"st.nested.depth{depth}")
     ctx.count(f"st.nested.{'failing' if fail_at is not None else 'valid'}")
     w = dict(depth=depth, how=how, fail_at=fail_at, fail_kind=fail_kind if fail_at is not None else None, dirs=[os.path.relpath(d, root) for d in dirs], outcome=o.brief(), through_symlink=symlinked, append_key=append_key)
     if after != before:
-        ctx.violation("relative", f"cwd-not-restored/{'after-failure' if not o.accepted else 'after-success'}", dict(w, before=before, after=after))
+        ctx.violation("relative", f"cwd-not-restored/{'after-failure' if not o.accepted else 'after-success'}{'/exit' if o.kind == 'exit' else ''}", dict(w, before=before, after=after))
         return
     if fail_at is not None:
         if o.accepted:
